@@ -17,6 +17,20 @@ Theorem C11_load_store : forall t alt v buf i,
                buf_len buf' = buf_len buf /\ bytes_ok buf'.
 Proof. exact load_store. Qed.
 
+(* raw_ok is exactly the set of values that exist: new / from_u32 mask into it, load returns it; hence
+   C11_load_store covers every value that can be handed to store, and any u32 round-trips to its masked value *)
+Theorem C11_new_is_raw : forall t x, raw_ok t (raw_new t x).
+Proof. exact raw_new_ok. Qed.
+
+Theorem C11_load_is_raw : forall t alt buf i v,
+  bytes_ok buf -> len_ok buf -> 0 <= i -> load t alt buf i = Some v -> raw_ok t v.
+Proof. exact load_is_raw. Qed.
+
+Theorem C11_load_store_from_u32 : forall t alt x buf i,
+  bytes_ok buf -> len_ok buf -> 0 <= i < pixels_total t (buf_len buf) ->
+  load t alt (fst (store t alt (raw_new t x) buf i)) i = Some (raw_new t x).
+Proof. exact load_store_new. Qed.
+
 (* every other pixel index (inside or outside the buffer) loads what it loaded before *)
 Theorem C11_store_frame : forall t alt v buf i j,
   bytes_ok buf -> len_ok buf -> raw_ok t v -> 0 <= i < pixels_total t (buf_len buf) -> 0 <= j -> j <> i ->
